@@ -296,7 +296,7 @@ fn cachegrind_irefs(bin: &std::path::Path, corpus: &str, repeat: usize) -> Resul
         .arg(corpus)
         .stdout(std::process::Stdio::null())
         .stderr(std::process::Stdio::piped())
-        .spawn()
+        .spawn_dwp()
         .map_err(|e| format!("cannot run valgrind: {}", e))?;
     // time budget: a run that exceeds it is inconclusive, never a violation
     let t0 = std::time::Instant::now();
@@ -344,7 +344,7 @@ fn family_cost(bin: &std::path::Path, f: usize, size: usize, tag: &str) -> Resul
             .arg(&path)
             .stdout(std::process::Stdio::null())
             .stderr(std::process::Stdio::null())
-            .spawn()
+            .spawn_dwp()
             .map_err(|e| format!("cannot run vdigest: {}", e))?;
         let t0 = std::time::Instant::now();
         loop {
@@ -543,4 +543,13 @@ pub fn run_c20(r: &Runner) {
         });
     }
     set_backend(0);
+}
+
+trait SpawnDwp {
+    fn spawn_dwp(&mut self) -> std::io::Result<std::process::Child>;
+}
+impl SpawnDwp for std::process::Command {
+    fn spawn_dwp(&mut self) -> std::io::Result<std::process::Child> {
+        crate::engine::die_with_parent(self).spawn()
+    }
 }
